@@ -146,7 +146,7 @@ def skeleton_stage(ctx: Ctx):
 
 
 def gen_case(rng, backend, boundary=False, mode="X"):
-    allow_inf = backend == "duckdb"      # SQLite: CAST('Infinity' AS float8) is 0.0 -> log2 raises (loud), see DESIGN
+    allow_inf = True       # u = 0 levels on both engines (SQLite writes infinity as the overflowing literal 9e999 since b7a83537)
     spec = G.gen_spec(rng, mode, boundary=boundary, allow_inf=allow_inf,
                       multi_exact=(not boundary and rng.random() < 0.3))
     # link type: two input tables for link_only / link_and_dedupe (TF from the concatenation of both);
@@ -381,6 +381,7 @@ def correspondence(ctx: Ctx):
                     ctx.hist("tf_min_u", lv["min_u"])
                 if Fr(lv["u"]) == 0 and lv["kind"] not in ("null",):
                     ctx.hist("u_zero", lv["u_via"])
+                    ctx.hist("u_zero_backend", case["backend"])
         ctx.hist("tf_lookup_registered", bool(case["lookups"]))
         ctx.hist("exact_threshold_stream", bool(case.get("exact_thr")))
         ctx.hist("thr_w", "row" if isinstance(case["thr_w"], dict) else str(case["thr_w"]))
